@@ -10,11 +10,9 @@
 #ifndef SIM_POISON_BYTE
 #define SIM_POISON_BYTE 0x00
 #endif
-#if SIM_POISON_BYTE == 0
-SIM_SANITIZER_DEFAULTS(":malloc_fill_byte=0:max_malloc_fill_size=1048576:max_allocation_size_mb=256")
-#else
+// C-library mallocs (libpng/libjpeg/libtiff internals) get the same fill in both builds: what those libraries do with
+// their own never-written memory is not judged; only gil-owned memory (operator new, stack) differs between A and B.
 SIM_SANITIZER_DEFAULTS(":malloc_fill_byte=190:max_malloc_fill_size=1048576:max_allocation_size_mb=256")
-#endif
 
 namespace sim {
 
@@ -114,6 +112,7 @@ static Json gen_c11(uint64_t seed, long i, std::vector<Format*> const& fmts)
         else { o.set("f", "noseek"); }
         ops.push(o);
     }
+    if (f->name == "png" && r.chance(2, 3)) { Json o = Json::object(); o.set("f", "pngcrc"); ops.push(o); }
     p.set("ops", ops);
     return p;
 }
@@ -271,6 +270,7 @@ int main(int argc, char** argv)
     install_segv_handler();
     silence_libtiff();
     g_new_poison = (unsigned char)SIM_POISON_BYTE;
+    if (char const* e = getenv("SIM_NEW_POISON")) g_new_poison = (unsigned char)atoi(e); // diagnosis only
     std::string mode = "c11", act, replay, only;
     uint64_t seed = 1; long a = 0, b = 0, gen_i = 0;
     for (int i = 1; i < argc; ++i)
@@ -281,6 +281,7 @@ int main(int argc, char** argv)
         else if (s == "--gen") { act = "gen"; gen_i = atol(next()); }
         else if (s == "--count") act = "count";
         else if (s == "--replay") { act = "replay"; replay = next(); }
+        else if (s == "--dump") { act = "dump"; replay = next(); }
         else if (s == "--worker") act = "worker";
         else if (s == "--range") { char const* r = next(); a = atol(r); char const* c = strchr(r, ':'); b = c ? atol(c + 1) : a + 1; }
         else if (s == "--mode") mode = next();
@@ -315,6 +316,21 @@ int main(int argc, char** argv)
     };
     if (act == "count") { printf("%ld\n", trunc_mode ? trunc_total(bases, mode == "truncall") : -1L); return 0; }
     if (act == "gen") { printf("%s\n", make_plan(gen_i).dump().c_str()); return 0; }
+    if (act == "dump")
+    {
+        // diagnosis: write the (faulted) file of a plan to stdout as hex
+        Json p = Json::parse_file(replay.c_str());
+        Format* f = find_format(p.str("fmt"));
+        Disk dk; disk() = &dk;
+        Bytes bytes; long fired = 0;
+        f->make(p.str("variant"), (int)p.num("w", 1), (int)p.num("h", 1), (uint64_t)p.num("cseed"), bytes);
+        size_t before = bytes.size();
+        apply_file_faults(bytes, p.at("ops"), &fired);
+        printf("size_before=%zu size_after=%zu\n", before, bytes.size());
+        for (size_t i = 0; i < bytes.size(); ++i) printf("%02x%s", bytes[i], (i % 32 == 31) ? "\n" : " ");
+        printf("\n");
+        return 0;
+    }
     if (act == "replay")
     {
         Json p = Json::parse_file(replay.c_str());
